@@ -12,6 +12,9 @@
 (*   ChangeParam(t)   change_volatility / change_drift / set_correlation / *)
 (*                    remove_correlation with time = t                     *)
 (*   Shock(m, t)      Market.change_fundamental_price at the market's time *)
+(* A market may START LATE (add_market(start_at = s), StartAt below): it   *)
+(* holds its initial value at times 0..s, takes no part in a generation    *)
+(* that ends at or before s, and start times are generation boundaries.    *)
 (* The return law itself (r = diag(vol) L z + drift with L L^T = corr) is  *)
 (* in the pure operators at the end; TLC checks L L^T = corr on the        *)
 (* rational cases that the algebraic probe replays into the code.          *)
@@ -23,15 +26,23 @@ CONSTANTS NMk, CHUNK, Horizon, MaxChanges
 VARIABLES ver, genUntil, nextVer, nchg, lastChange, snap
 vars == <<ver, genUntil, nextVer, nchg, lastChange, snap>>
 Mk == 1..NMk
-Len0 == Len(ver[1])          \* all markets have the same number of generated values
+StartAt == [m \in Mk |-> 0]          \* start_at of every market (a model overrides it; some market starts at 0)
+MinOf(S) == CHOOSE x \in S : \A y \in S : x <= y
 
-Init == /\ ver = [m \in Mk |-> <<0>>]           \* time 0 holds the configured initial value (version 0)
-        /\ genUntil = 0 /\ nextVer = 1 /\ nchg = 0 /\ lastChange = -1 /\ snap = [m \in Mk |-> <<0>>]
+\* add_market: the initial value (version 0) at the times 0..start_at; genUntil = the smallest start
+Init == /\ ver = [m \in Mk |-> [i \in 1..(StartAt[m] + 1) |-> 0]]
+        /\ genUntil = MinOf({StartAt[m] : m \in Mk}) /\ nextVer = 1 /\ nchg = 0 /\ lastChange = -1
+        /\ snap = [m \in Mk |-> [i \in 1..(StartAt[m] + 1) |-> 0]]
 
-\* Fundamentals._generate_next: keep [0..genUntil], append CHUNK fresh values for every market
-Generated(v, g, nv) == [m \in Mk |-> SubSeq(v[m], 1, g + 1) \o [i \in 1..CHUNK |-> nv]]
+\* Fundamentals._generate_next: the generation runs to the next start time if there is one ahead, else over CHUNK steps;
+\* the markets that have started before its end keep [0..genUntil] and get fresh values, the others are left alone
+StartsAhead(g) == {StartAt[m] : m \in {k \in Mk : StartAt[k] > g}}
+GenLength(g) == IF StartsAhead(g) = {} THEN CHUNK ELSE MinOf(StartsAhead(g)) - g
+Targets(g) == {m \in Mk : StartAt[m] < g + GenLength(g)}
+Generated(v, g, nv) == [m \in Mk |-> IF m \in Targets(g) THEN SubSeq(v[m], 1, g + 1) \o [i \in 1..GenLength(g) |-> nv] ELSE v[m]]
 RECURSIVE GenWhile(_, _, _, _)
-GenWhile(v, g, nv, t) == IF t < g THEN <<v, g, nv>> ELSE GenWhile(Generated(v, g, nv), g + CHUNK, nv + 1, t)
+GenWhile(v, g, nv, t) == IF t < g THEN <<v, g, nv>> ELSE GenWhile(Generated(v, g, nv), g + GenLength(g), nv + 1, t)
+Admissible(t) == \A m \in Mk : t < Len(ver[m])       \* the change time lies within what every market holds
 
 Get(t) ==
   /\ t <= Horizon
@@ -39,15 +50,15 @@ Get(t) ==
      /\ ver' = r[1] /\ genUntil' = r[2] /\ nextVer' = r[3]
   /\ UNCHANGED <<nchg, lastChange, snap>>
 
-\* admissible: the change time lies within the generated horizon
 ChangeParam(t) ==
-  /\ nchg < MaxChanges /\ t < Len0
+  /\ nchg < MaxChanges /\ Admissible(t)
   /\ genUntil' = t /\ nchg' = nchg + 1
   /\ lastChange' = t /\ snap' = ver
   /\ UNCHANGED <<ver, nextVer>>
 
+\* (a market is shocked at its own clock: not before it has started)
 Shock(m, t) ==
-  /\ nchg < MaxChanges /\ t < Len0
+  /\ nchg < MaxChanges /\ Admissible(t) /\ t >= StartAt[m]
   /\ ver' = [ver EXCEPT ![m][t + 1] = nextVer] /\ nextVer' = nextVer + 1
   /\ genUntil' = t /\ nchg' = nchg + 1
   /\ lastChange' = t /\ snap' = [ver EXCEPT ![m][t + 1] = nextVer]
@@ -64,7 +75,12 @@ PrefixKept == [][nchg' = nchg => \A m \in Mk : \A u \in 0..genUntil : u < Len(ve
 \* a change or shock at time t rewrites nothing but (for a shock) the slot t itself
 ChangeTouchesOnlyItsSlot == [][nchg' > nchg => \A m \in Mk : \A u \in 0..(Len(ver[m]) - 1) :
                                  ver'[m][u + 1] # ver[m][u + 1] => u = genUntil']_vars
-SameLength == \A m1, m2 \in Mk : Len(ver[m1]) = Len(ver[m2])
-Covered == Len0 >= genUntil + 1
+\* every market that has started holds a value for every time up to genUntil; all of them up to their start
+SameLength == \A m1, m2 \in Mk : (StartAt[m1] <= genUntil /\ StartAt[m2] <= genUntil /\ nchg = 0) => Len(ver[m1]) = Len(ver[m2])
+Covered == \A m \in Mk : Len(ver[m]) >= StartAt[m] + 1 /\ (StartAt[m] <= genUntil => Len(ver[m]) >= genUntil + 1)
+\* a late market holds its initial value up to its start (only a shock AT the start time writes there), and no
+\* generation ever writes at or before a market's start
+LateHoldsInitial == \A m \in Mk : \A u \in 0..(StartAt[m] - 1) : ver[m][u + 1] = 0
+StartNeverGenerated == [][nchg' = nchg => \A m \in Mk : ver'[m][StartAt[m] + 1] = ver[m][StartAt[m] + 1]]_vars
 
 =============================================================================
